@@ -227,9 +227,7 @@ class Check:
                         break
                 # mask the event and carry on with the rest of the trace
                 masked.add(r.line)
-                ev2 = dict(ev)
-                ev2["ev"] = "masked"
-                events[r.line - 1] = ev2
+                events[r.line - 1] = {"ev": "masked", "case": ev.get("case"), "driver": ev.get("driver")}
                 with open(trace_path, "w") as f:
                     for e in events:
                         f.write(json.dumps(e) + "\n")
